@@ -431,9 +431,14 @@ func Run(c *core.Ctx, replay string) (*core.Result, error) {
 			id++
 			n := 2 + rng.Intn(3)
 			var fs []AField
-			usedEmb := false
+			usedEmb, usedDash := false, false
 			for j := 0; j < n; j++ {
 				f := decorate(universe[rng.Intn(len(universe))])
+				dash := f.Hasjson && f.Tagname == "-" && f.Tagopts != "" // `json:"-,..."` names the key "-"
+				if dash && usedDash {
+					f.Tagname, dash = fmt.Sprintf("d%d", j), false // keys stay distinct (duplicate-key rule out of scope)
+				}
+				usedDash = usedDash || dash
 				if f.Emb == "struct" {
 					if usedEmb {
 						continue
@@ -443,9 +448,6 @@ func Run(c *core.Ctx, replay string) (*core.Result, error) {
 					f.Goname = fmt.Sprintf("F%c", 'a'+j)
 					if f.Hasjson && f.Tagname == "n" {
 						f.Tagname = fmt.Sprintf("n%d", j) // keys stay distinct: the duplicate-key rule of encoding/json is out of scope
-					}
-					if f.Hasjson && f.Tagname == "-" && f.Tagopts != "" && j > 0 {
-						f.Tagname = fmt.Sprintf("d%d", j)
 					}
 				}
 				fs = append(fs, f)
